@@ -33,7 +33,8 @@
 // data in a control block owned by the run (so one System can serve several runs); every run is bounded by a count
 // of returned steps and by a count of force evaluations (no wall clock anywhere). Integrator exceptions
 // (initialization / step failure) are outcomes: their text is part of the record. A scenario whose reference run
-// fails to initialize is skipped (nothing to compare).
+// fails to initialize is skipped (nothing to compare). CPodes is not started on a System without continuous state
+// variables (the library segfaults there; reported separately), such a scenario is skipped with that reason.
 // Not observable here: bit-identity across machines, compilers or library builds.
 #include "determ_noise.h"
 #include <thread>
@@ -57,7 +58,7 @@ static CaseSpec makeCase(const Args& a, long idx, Rng& r) {
     cs.kn.maxStates = (int)a.getInt("maxstates", thorough ? 48 : 24);
     cs.kn.budget = a.getInt("budget", thorough ? 8000 : 3000);
     cs.geod = a.getInt("geodesics", 1) != 0;      // investigation aid: 0 replaces the geodesic activity
-    cs.kn.cableSurfaceWithHandlers = a.getInt("cable-surface-with-handlers", 0) != 0;
+    cs.kn.cableSurfaceWithHandlers = a.getInt("cable-surface-with-handlers", 1) != 0;
     if (a.getInt("combo", -1) >= 0) cs.cyc = cs.cyc - cs.cyc % N_FEAT_COMBOS + a.getInt("combo", 0);   // investigation aid
     // investigation aids: replay a scenario named in a witness (e.g. one run by the noise) as the case's own scenario
     if (!a.get("scen-seed").empty()) cs.scenSeed = strtoull(a.get("scen-seed").c_str(), 0, 10);
